@@ -2,9 +2,17 @@
 //! script = [time_based, wsize, wdur, minc, fnum, fden, slow_on, slow_thr, snum, sden, wait_open,
 //!           permitted, has_fallback, n, (op a b)*]
 //! op 1 Poll a | 2 Drop a | 3 Advance a ms | 4 Complete a b | 5 ForceOpen | 6 ForceClosed | 7 Reset
-//! outcome b: 0 ok | 1 ok classified as failure | 2 err | 3 err classified as success | 4 panic
-//! trace per event = [r, started, state, state_sync, metrics.state, total, failures, successes, slow,
-//!                    in-flight, wake mask]
+//! | 8 Call a (create the call future without polling it). Events naming a caller outside 0..n-1
+//! are skipped (no trace entry).
+//! outcome b: 0 ok | 1 ok classified as failure | 2 err | 3 err classified as success
+//!            | 5 ok on which the failure classifier panics | anything else: the inner call panics
+//! min_calls < 0 = minimum_number_of_calls is not set (builder default: the window size)
+//! trace per event = [r, started (number of inner calls started by this event), state, state_sync,
+//!                    metrics.state, total, failures, successes, slow, in-flight, wake mask]
+//! Handles: callers are clones of `base` (the service, with its fallback when configured); the
+//! operator actions and the lock-free view go through `ctl`, a clone of the plain breaker taken
+//! BEFORE `with_fallback`; state().await and metrics() are read from `base`. All of them must
+//! share one circuit.
 use futures::future::BoxFuture;
 use std::time::Duration;
 use tower::{Layer, Service};
@@ -24,8 +32,9 @@ fn code(s: CircuitState) -> i128 {
 }
 
 macro_rules! drive {
-    ($svc:expr, $s:expr, $n:expr, $sh:expr) => {{
+    ($svc:expr, $ctl:expr, $s:expr, $n:expr, $sh:expr) => {{
         let base = $svc;
+        let ctl = $ctl;
         let s: &[i128] = $s;
         let n: usize = $n;
         let sh = $sh;
@@ -39,7 +48,7 @@ macro_rules! drive {
             .collect();
         for (op, a, b) in evs {
             let mut r: i128 = -1;
-            let mut started = 0i128;
+            sh.take_starts();
             match op {
                 1 | 2 | 8 => {
                     if a < 0 || a as usize >= n { continue; }
@@ -57,7 +66,6 @@ macro_rules! drive {
                         if !m.alive() {
                             r = 9;
                         } else {
-                            sh.take_starts();
                             let fin = m.poll();
                             r = if !fin { 0 } else if m.panicked { 5 } else {
                                 match m.done.take().unwrap() {
@@ -67,7 +75,6 @@ macro_rules! drive {
                                     Err(CircuitBreakerError::OpenCircuit) => 3,
                                 }
                             };
-                            if !sh.take_starts().is_empty() { started = 1; }
                         }
                     } else {
                         m.drop_fut();
@@ -76,23 +83,25 @@ macro_rules! drive {
                 }
                 3 => advance_ms(a.max(0) as u64).await,
                 4 => {
-                    if a >= 0 && (a as usize) < n {
-                        sh.complete(a, 0, match b { 0 => Outcome::Ok(0), 1 => Outcome::Ok(1), 2 => Outcome::Err(2), 3 => Outcome::Err(3), _ => Outcome::Panic });
-                    }
+                    if a < 0 || a as usize >= n { continue; }
+                    sh.complete(a, 0, match b { 0 => Outcome::Ok(0), 1 => Outcome::Ok(1), 2 => Outcome::Err(2), 3 => Outcome::Err(3), 5 => Outcome::Ok(5), _ => Outcome::Panic });
                 }
-                5 => base.force_open().await,
-                6 => base.force_closed().await,
-                7 => base.reset().await,
+                5 => ctl.force_open().await,
+                6 => ctl.force_closed().await,
+                7 => ctl.reset().await,
                 _ => continue,
             }
             settle().await;
+            // every inner call started by this event (also by spawned work during settle)
+            let started = sh.take_starts().len() as i128;
             let mut mask: i128 = 0;
             for (j, c) in callers.iter().enumerate() {
                 if let Some(m) = c { if m.alive() && m.woken() { mask += 1i128 << j; } }
             }
             let st = code(base.state().await);
-            let mut sync = code(base.state_sync());
-            if base.is_open() != (base.state_sync() == CircuitState::Open) { sync += 10; }
+            let mut sync = code(ctl.state_sync());
+            if ctl.is_open() != (ctl.state_sync() == CircuitState::Open) { sync += 10; }
+            if base.state_sync() != ctl.state_sync() || base.is_open() != ctl.is_open() { sync += 20; }
             let m = base.metrics().await;
             tr.extend([r, started, st, sync, code(m.state), m.total_calls as i128, m.failure_count as i128,
                        m.success_count as i128, m.slow_call_count as i128, sh.inflight() as i128, mask]);
@@ -113,23 +122,30 @@ fn run(s: &[i128]) -> Vec<i128> {
             .sliding_window_type(if zn(s, 0) != 0 { SlidingWindowType::TimeBased } else { SlidingWindowType::CountBased })
             .sliding_window_size(zn(s, 1).max(0) as usize)
             .sliding_window_duration(Duration::from_millis(zn(s, 2).max(0) as u64))
-            .minimum_number_of_calls(zn(s, 3).max(0) as usize)
             .failure_rate_threshold(zn(s, 4) as f64 / zn(s, 5) as f64)
             .slow_call_rate_threshold(zn(s, 8) as f64 / zn(s, 9) as f64)
             .wait_duration_in_open(if zn(s, 10) >= 1_000_000_000_000_000 { Duration::MAX } else { Duration::from_millis(zn(s, 10).max(0) as u64) })
             .permitted_calls_in_half_open(zn(s, 11).max(0) as usize);
+        if zn(s, 3) >= 0 {
+            b = b.minimum_number_of_calls(zn(s, 3) as usize);
+        }
         if zn(s, 6) != 0 {
             b = b.slow_call_duration_threshold(Duration::from_millis(zn(s, 7).max(0) as u64));
         }
         let layer = b
-            .failure_classifier(|r: &Result<i128, i128>| match r { Ok(v) => *v == 1, Err(e) => *e != 3 })
+            .failure_classifier(|r: &Result<i128, i128>| match r {
+                Ok(5) => panic!("scripted classifier panic"),
+                Ok(v) => *v == 1,
+                Err(e) => *e != 3,
+            })
             .build();
         let cb = layer.layer(inner);
+        let ctl = cb.clone();
         if zn(s, 12) != 0 {
             let svc = cb.with_fallback(|_req: i128| -> BoxFuture<'static, Result<i128, i128>> { Box::pin(async { Ok(77) }) });
-            drive!(svc, s, n, sh)
+            drive!(svc, ctl, s, n, sh)
         } else {
-            drive!(cb, s, n, sh)
+            drive!(cb, ctl, s, n, sh)
         }
     })
 }
